@@ -76,7 +76,8 @@ RULE = ("real ConsumerGroup + KafkaClient, 2 brokers, topic t with 2 partitions,
         "OffsetCommit is written and no commit or processor call of the old generation is still pending; none "
         "after an eviction answer until the rejoin; one join/sync exchange in flight; heartbeats only while stable "
         "with current ids; every new consumer's first fetch is at the group's committed offset + 1; after stop() "
-        "only the leave (and the graceful commits) are written, and after its Deferred fires nothing and no timer.")
+        "only the leave (and the graceful commits) are written, and after its Deferred fires nothing (timers left "
+        "behind are run: they may not write anything).")
 ASSUME = ["SimGroup (ref/simgroup.py) is the coordinator: one real member + phantom, generation bump per join",
           "small scope"]
 
